@@ -501,7 +501,20 @@ func (en *Engine) aliasPartition(st *State, fn *ssa.Function, args []Value) ([][
 	}
 	for i := range ps {
 		for j := i + 1; j < len(ps); j++ {
-			switch pathRel(ps[i].p, ps[j].p) {
+			rel := pathRel(ps[i].p, ps[j].p)
+			if rel == 2 {
+				// symbolic element indices: distinct elements if the indices provably differ
+				if c := pathDistinctCond(ps[i].p, ps[j].p); c != nil {
+					if en.intervalHolds(st, c) {
+						st.addSide(c, "distinct array elements")
+						rel = 1
+					} else {
+						en.aliasConds = append(en.aliasConds, c)
+						rel = 1
+					}
+				}
+			}
+			switch rel {
 			case 0:
 				a, b := find(ps[i].name), find(ps[j].name)
 				if a != b {
@@ -596,8 +609,14 @@ func (en *Engine) applyContract(st *State, f *Frame, x *ssa.Call, fn *ssa.Functi
 		en.assumedUsed[name] = true
 	}
 	env := en.bindParams(fn, fc, args)
+	en.aliasConds = nil
 	part, problems := en.aliasPartition(st, fn, args)
 	short := fn.Pkg.Pkg.Name() + "." + fn.RelString(fn.Pkg.Pkg)
+	for _, c := range en.aliasConds {
+		en.flushSide(st)
+		en.addObl(st, "alias@"+short, c, "pointer arguments into the same array designate distinct elements", pos)
+	}
+	en.aliasConds = nil
 	if len(problems) > 0 || !aliasAllowed(fc, part) {
 		en.flushSide(st)
 		en.addObl(st, "alias@"+short, False(), fmt.Sprintf("argument aliasing %v %v is not among the alias patterns the contract of %s was verified for", part, problems, short), pos)
@@ -671,12 +690,58 @@ func (en *Engine) applyContract(st *State, f *Frame, x *ssa.Call, fn *ssa.Functi
 	freshLo := TS.fresh
 	TS.mu.Unlock()
 	nFactsBefore := len(st.facts)
+	// element invariants the callee relies on must be declared (same array, same predicate) by the caller
+	for ci := range fc.ElemInv {
+		ce := &fc.ElemInv[ci]
+		var cl Value
+		func() {
+			defer func() { recover() }()
+			cl = sc.lvalue(ce.Arr.Expr)
+		}()
+		cp, ok := cl.(PtrV)
+		found := false
+		if ok && len(st.frames) > 0 && st.frames[0].spec != nil {
+			f0 := st.frames[0]
+			for i := range f0.spec.fc.ElemInv {
+				ei := &f0.spec.fc.ElemInv[i]
+				if ei.Pred.Src != ce.Pred.Src {
+					continue
+				}
+				var loc Value
+				func() {
+					defer func() { recover() }()
+					s2 := *f0.spec
+					s2.st = st
+					s2.locals = en.localsResolver(st, f0)
+					loc = s2.lvalue(ei.Arr.Expr)
+				}()
+				if a, ok := loc.(PtrV); ok && a.R == cp.R && len(a.Path) == len(cp.Path) {
+					same := true
+					for k := range a.Path {
+						if a.Path[k].Field != cp.Path[k].Field || a.Path[k].Idx != nil || cp.Path[k].Idx != nil {
+							same = false
+						}
+					}
+					found = found || same
+				}
+			}
+		}
+		goal := True()
+		if !found {
+			goal = False()
+		}
+		en.addObl(st, "pre-elem-inv@"+short, goal, "the caller maintains the element invariant "+ce.Pred.Src+" of "+ce.Arr.Src+" that "+name+" relies on", pos)
+	}
+	var written []PtrV
 	for _, m := range fc.Modifies {
-		if st.wframe != nil {
-			switch l := sc.lvalue(m.Expr).(type) {
-			case PtrV:
+		switch l := sc.lvalue(m.Expr).(type) {
+		case PtrV:
+			if st.wframe != nil {
 				en.checkWrite(st, l.R, l.Path, nil, nil, pos)
-			case SliceV:
+			}
+			written = append(written, l)
+		case SliceV:
+			if st.wframe != nil {
 				en.checkWrite(st, l.R, l.Path, l.Off, l.Len, pos)
 			}
 		}
@@ -747,8 +812,84 @@ func (en *Engine) applyContract(st *State, f *Frame, x *ssa.Call, fn *ssa.Functi
 	if freshHi > freshLo {
 		en.propagateDefs(st, sc, fc, nFactsBefore, freshLo, freshHi)
 	}
+	// element invariants of the caller: re-established for every element the callee wrote;
+	// a callee that rewrites a whole invariant-carrying array must declare the same invariant
+	for _, w := range written {
+		en.elemInvCheck(st, w.R, w.Path, pos)
+		en.elemInvWhole(st, w, fc, sc, name, pos)
+	}
 	f.env[x] = res
 	return extra
+}
+
+// elemInvWhole: the callee's modifies clause names a whole array that carries an element
+// invariant in the caller: the callee must carry the same invariant (same predicate text) on it.
+func (en *Engine) elemInvWhole(st *State, w PtrV, callee *FuncContract, csc *specCtx, name, pos string) {
+	if len(st.frames) == 0 || st.frames[0].spec == nil {
+		return
+	}
+	f := st.frames[0]
+	for i := range f.spec.fc.ElemInv {
+		ei := &f.spec.fc.ElemInv[i]
+		var loc Value
+		func() {
+			defer func() {
+				if rec := recover(); rec != nil {
+					if _, ok := rec.(execError); !ok {
+						panic(rec)
+					}
+				}
+			}()
+			sc := *f.spec
+			sc.st = st
+			sc.locals = en.localsResolver(st, f)
+			loc = sc.lvalue(ei.Arr.Expr)
+		}()
+		a, ok := loc.(PtrV)
+		if !ok || a.R != w.R || len(w.Path) > len(a.Path) {
+			continue
+		}
+		pre := true
+		for k, e := range w.Path {
+			if e.Idx != nil || a.Path[k].Idx != nil || e.Field != a.Path[k].Field {
+				pre = false
+			}
+		}
+		if !pre {
+			continue
+		}
+		// w covers the whole array a: look for the same invariant in the callee
+		found := false
+		for _, ce := range callee.ElemInv {
+			if ce.Pred.Src != ei.Pred.Src {
+				continue
+			}
+			var cl Value
+			func() {
+				defer func() { recover() }()
+				cl = csc.lvalue(ce.Arr.Expr)
+			}()
+			if cp, ok := cl.(PtrV); ok && cp.R == a.R && len(cp.Path) == len(a.Path) {
+				same := true
+				for k := range cp.Path {
+					if cp.Path[k].Field != a.Path[k].Field || cp.Path[k].Idx != nil {
+						same = false
+					}
+				}
+				if same {
+					found = true
+				}
+			}
+		}
+		goal := True()
+		if !found {
+			goal = False()
+		}
+		if callee.Assumed && found {
+			en.assumedUsed[name+" (assumed to preserve the element invariant "+ei.Pred.Src+" of "+ei.Arr.Src+")"] = true
+		}
+		en.addObl(st, "elem-inv", goal, "callee "+name+" rewrites "+ei.Arr.Src+" and declares the same element invariant "+ei.Pred.Src, pos)
+	}
 }
 
 func (en *Engine) freshValue(st *State, t types.Type, prefix string) Value {
